@@ -27,6 +27,17 @@ def excluded_class(p):
         return 'signed-shl-overflow'
     return None
 
+# default targets of the function-pointer interfaces (stubs/vstub_pipe.h); a unit's "fp" adds to / overrides them
+DEFAULT_FP = {
+    'uprobe_throw': ['stub_probe_throw'], 'udict_control': ['stub_udict_control'], 'udict_alloc': ['stub_udict_alloc'],
+    'udict_free': ['stub_udict_free'], 'uref_alloc': ['stub_uref_alloc'], 'uref_free': ['stub_uref_free'],
+    'upipe_input': ['stub_out_input'], 'upipe_control': ['stub_out_control'], 'cb': ['stub_out_dead'],
+    'ubuf_control': ['stub_ubuf_control'], 'ubuf_free': ['stub_ubuf_free'],
+    'upump_alloc': ['stub_upump_alloc'], 'upump_control': ['stub_upump_control'],
+    'urequest_provide': ['stub_urequest_provide'], 'urequest_free': ['stub_urequest_free'],
+    'upipe_command_str': ['stub_str'], 'upipe_err_str': ['stub_str'], 'upipe_event_str': ['stub_str'],
+}
+
 BASE_CHECKS = ['--bounds-check', '--pointer-check', '--div-by-zero-check',
                '--undefined-shift-check', '--signed-overflow-check',
                '--pointer-primitive-check', '--unwinding-assertions']
@@ -111,7 +122,11 @@ def run_group(repo, unit, g, variant_defs=(), tag=''):
     #     (CBMC's default candidate set is every address-taken function of a loosely compatible type, which
     #     sends e.g. udict->mgr->udict_control(...) into the pipe's own control function). The restriction is
     #     itself an obligation: goto-instrument asserts that the pointer is one of the listed targets.
-    fp = dict(unit.get('fp', {})); fp.update(g.get('fp', {}))
+    fp = {}
+    if unit.get('fp') is not None or g.get('fp') is not None:
+        fp = {k_: list(v_) for k_, v_ in DEFAULT_FP.items()}
+        for k_, v_ in list((unit.get('fp') or {}).items()) + list((g.get('fp') or {}).items()):
+            fp[k_] = fp.get(k_, []) + [t for t in v_ if t not in fp.get(k_, [])]
     src_gb = 'a1.gb'
     if fp:
         rc, so, se, dt = sh(['goto-instrument', '--show-goto-functions', 'a1.gb'], 300, cwd=wd)
@@ -121,8 +136,11 @@ def run_group(repo, unit, g, variant_defs=(), tag=''):
             m = re.match(r'^([\w$]+) /\* ', line)
             if m:
                 cur = m.group(1); continue
-            m = re.search(r'CALL (?:.* := )?\*\(?.*?(\w+)\)\(', line) if 'CALL' in line else None
-            if m and cur and re.search(r'CALL (?:[^(]*? := )?\*', line):
+            m = None
+            if 'CALL' in line and re.search(r'CALL (?:[^(]*? := )?\*', line):
+                m = re.search(r'CALL (?:[^(]*? := )?\*\(?.*?\.(\w+)\)\(', line) or \
+                    re.search(r'CALL (?:[^(]*? := )?\*(?:[\w$]+::)*(\w+)\(', line)
+            if m and cur:
                 count[cur] = count.get(cur, 0) + 1
                 member = m.group(1)
                 label = '%s.function_pointer_call.%d' % (cur, count[cur])
@@ -162,7 +180,15 @@ def run_group(repo, unit, g, variant_defs=(), tag=''):
             m = re.match(r'^([\w$]+) -> ([\w$]+)$', line.strip())
             if m:
                 edges.setdefault(m.group(1), set()).add(m.group(2))
-        todo = list(variadic)
+        # only variadic functions the function under contract can reach matter (the entry's own variadic
+        # trampolines sit above the contract wrapper, which creates a fresh write set)
+        reach = set(); todo = [g['enforce']] if g.get('enforce') else []
+        while todo:
+            f = todo.pop()
+            if f in reach:
+                continue
+            reach.add(f); todo.extend(edges.get(f, ()))
+        todo = [v for v in variadic if v in reach]
         while todo:
             f = todo.pop()
             if f in below_variadic:
